@@ -56,11 +56,14 @@ structure PI (p : Pool) (L : List Nat) (nA nF : Nat) : Prop where
   statBal : p.stat.allocT + nA = p.stat.freeT + L.length
   statPeakA : L.length ≤ p.stat.peakA + nA
   statPeakF : p.parked.length ≤ p.stat.peakF
+  lostOk : ∀ b, b ∈ p.lost → b < p.nextBlk ∧ b ∉ p.parked ∧ b ∉ L ∧ b ∉ p.released
 
 theorem PI_perm (p : Pool) (L L' : List Nat) (nA nF : Nat) (hi : PI p L nA nF) (hp : L.Perm L') : PI p L' nA nF := by
   have hm : ∀ x, x ∈ L' ↔ x ∈ L := fun x => hp.mem_iff.symm
   have hl := hp.length_eq
-  refine ⟨hi.parkedNodup, hp.nodup_iff.1 hi.liveNodup, ?_, ?_, ?_, hi.freeNum, hi.keep, ?_, ?_, ?_, hi.statPeakF⟩
+  refine ⟨hi.parkedNodup, hp.nodup_iff.1 hi.liveNodup, ?_, ?_, ?_, hi.freeNum, hi.keep, ?_, ?_, ?_, hi.statPeakF, ?_⟩
+  rotate_right
+  · intro b hb; have := hi.lostOk b hb; exact ⟨this.1, this.2.1, by rw [hm]; exact this.2.2.1, this.2.2.2⟩
   · intro b hb; rw [hm]; exact hi.disjoint b hb
   · intro b hb; rw [hm] at hb; exact hi.fresh b hb
   · intro b hb; rw [hm]; exact hi.relDisj b hb
@@ -76,7 +79,17 @@ theorem PI_allocA (p : Pool) (L : List Nat) (nA nF : Nat) (hi : PI p L nA nF) :
       have hb : p.allocA.2 = p.nextBlk := by simp [Pool.allocA, hp]
       have hnl : p.nextBlk ∉ L := fun hx => Nat.lt_irrefl _ (hi.fresh _ (Or.inr (Or.inl hx)))
       have hnr : p.nextBlk ∉ p.released := fun hx => Nat.lt_irrefl _ (hi.fresh _ (Or.inr (Or.inr hx)))
-      refine ⟨⟨?_, ?_, ?_, ?_, ?_, ?_, ?_, ?_, ?_, ?_, ?_⟩, hb ▸ hnl, hb ▸ hnr⟩
+      refine ⟨⟨?_, ?_, ?_, ?_, ?_, ?_, ?_, ?_, ?_, ?_, ?_, ?_⟩, hb ▸ hnl, hb ▸ hnr⟩
+      rotate_right
+      · intro x hx
+        have hx' : x ∈ p.lost := by simpa [Pool.allocA, Pool.ctorEnter, hp] using hx
+        have := hi.lostOk x hx'
+        rw [hb]
+        refine ⟨?_, ?_, ?_, ?_⟩
+        · simp [Pool.allocA, Pool.ctorEnter, hp]; omega
+        · simp [Pool.allocA, Pool.ctorEnter, hp]
+        · simp only [List.mem_cons, not_or]; exact ⟨by omega, this.2.2.1⟩
+        · simpa [Pool.allocA, Pool.ctorEnter, hp] using this.2.2.2
       · simp [Pool.allocA, Pool.ctorEnter, hp]
       · rw [List.nodup_cons, hb]; exact ⟨hnl, hi.liveNodup⟩
       · intro x hx; simp [Pool.allocA, Pool.ctorEnter, hp] at hx
@@ -105,7 +118,20 @@ theorem PI_allocA (p : Pool) (L : List Nat) (nA nF : Nat) (hi : PI p L nA nF) :
       have hnl : b ∉ L := hi.disjoint b hbp
       have hnr : b ∉ p.released := fun hx => (hi.relDisj b hx).1 hbp
       have hnd := hi.parkedNodup; rw [hp] at hnd
-      refine ⟨⟨?_, ?_, ?_, ?_, ?_, ?_, ?_, ?_, ?_, ?_, ?_⟩, hb ▸ hnl, hb ▸ hnr⟩
+      refine ⟨⟨?_, ?_, ?_, ?_, ?_, ?_, ?_, ?_, ?_, ?_, ?_, ?_⟩, hb ▸ hnl, hb ▸ hnr⟩
+      rotate_right
+      · intro x hx
+        have hx' : x ∈ p.lost := by simpa [Pool.allocA, Pool.ctorEnter, hp] using hx
+        have := hi.lostOk x hx'
+        have hxp := this.2.1
+        rw [hp] at hxp
+        simp only [List.mem_cons, not_or] at hxp
+        rw [hb]
+        refine ⟨?_, ?_, ?_, ?_⟩
+        · simpa [Pool.allocA, Pool.ctorEnter, hp] using this.1
+        · simpa [Pool.allocA, Pool.ctorEnter, hp] using hxp.2
+        · simp only [List.mem_cons, not_or]; exact ⟨hxp.1, this.2.2.1⟩
+        · simpa [Pool.allocA, Pool.ctorEnter, hp] using this.2.2.2
       · simp [Pool.allocA, Pool.ctorEnter, hp]; exact (List.nodup_cons.1 hnd).2
       · rw [List.nodup_cons, hb]; exact ⟨hnl, hi.liveNodup⟩
       · intro x hx
@@ -140,13 +166,13 @@ theorem PI_allocA (p : Pool) (L : List Nat) (nA nF : Nat) (hi : PI p L nA nF) :
 
 /-- the constructor has returned: statistics -/
 theorem PI_allocB (p : Pool) (L : List Nat) (nA nF : Nat) (hi : PI p L (nA + 1) nF) : PI p.allocB L nA nF := by
-  refine ⟨hi.parkedNodup, hi.liveNodup, hi.disjoint, hi.fresh, hi.relDisj, hi.freeNum, hi.keep, hi.balance, ?_, ?_, hi.statPeakF⟩
+  refine ⟨hi.parkedNodup, hi.liveNodup, hi.disjoint, hi.fresh, hi.relDisj, hi.freeNum, hi.keep, hi.balance, ?_, ?_, hi.statPeakF, hi.lostOk⟩
   · have := hi.statBal; simp [Pool.allocB]; omega
   · have h1 := hi.statBal; have h2 := hi.statPeakA
     simp only [Pool.allocB]; split <;> omega
 
 theorem PI_dtorEnter (p : Pool) (L : List Nat) (nA nF : Nat) (hi : PI p L nA nF) : PI p.dtorEnter L nA (nF + 1) := by
-  refine ⟨hi.parkedNodup, hi.liveNodup, hi.disjoint, hi.fresh, hi.relDisj, hi.freeNum, hi.keep, ?_, hi.statBal, hi.statPeakA, hi.statPeakF⟩
+  refine ⟨hi.parkedNodup, hi.liveNodup, hi.disjoint, hi.fresh, hi.relDisj, hi.freeNum, hi.keep, ?_, hi.statBal, hi.statPeakA, hi.statPeakF, hi.lostOk⟩
   have := hi.balance; simp [Pool.dtorEnter]; omega
 
 /-- the destructor has returned: the block `b` (in use until now) is parked or released -/
@@ -159,7 +185,17 @@ theorem PI_freeB (p : Pool) (L : List Nat) (nA nF b : Nat) (hi : PI p (b :: L) n
   have hnb : b ∉ L := (List.nodup_cons.1 hnd).1
   have hk' : (p.freeNum < p.keep) = (p.parked.length < p.keep) := by rw [hi.freeNum]
   by_cases hk : p.parked.length < p.keep
-  · refine ⟨?_, (List.nodup_cons.1 hnd).2, ?_, ?_, ?_, ?_, ?_, ?_, ?_, ?_, ?_⟩
+  · refine ⟨?_, (List.nodup_cons.1 hnd).2, ?_, ?_, ?_, ?_, ?_, ?_, ?_, ?_, ?_, ?_⟩
+    rotate_right
+    · intro x hx
+      have hx' : x ∈ p.lost := by simpa [Pool.freeB, hk', hk] using hx
+      have := hi.lostOk x hx'
+      have hxl := this.2.2.1
+      simp only [List.mem_cons, not_or] at hxl
+      refine ⟨?_, ?_, hxl.2, ?_⟩
+      · simpa [Pool.freeB, hk', hk] using this.1
+      · simp [Pool.freeB, hk', hk]; exact ⟨hxl.1, this.2.1⟩
+      · simpa [Pool.freeB, hk', hk] using this.2.2.2
     · simp [Pool.freeB, hk', hk]; exact ⟨hbp, hi.parkedNodup⟩
     · intro x hx
       simp [Pool.freeB, hk', hk] at hx
@@ -187,7 +223,17 @@ theorem PI_freeB (p : Pool) (L : List Nat) (nA nF b : Nat) (hi : PI p (b :: L) n
     · have h1 := hi.statPeakF; have h2 := hi.freeNum
       simp only [Pool.freeB, hk', hk, if_true, h2, List.length_cons]
       split <;> omega
-  · refine ⟨?_, (List.nodup_cons.1 hnd).2, ?_, ?_, ?_, ?_, ?_, ?_, ?_, ?_, ?_⟩
+  · refine ⟨?_, (List.nodup_cons.1 hnd).2, ?_, ?_, ?_, ?_, ?_, ?_, ?_, ?_, ?_, ?_⟩
+    rotate_right
+    · intro x hx
+      have hx' : x ∈ p.lost := by simpa [Pool.freeB, hk', hk] using hx
+      have := hi.lostOk x hx'
+      have hxl := this.2.2.1
+      simp only [List.mem_cons, not_or] at hxl
+      refine ⟨?_, ?_, hxl.2, ?_⟩
+      · simpa [Pool.freeB, hk', hk] using this.1
+      · simpa [Pool.freeB, hk', hk] using this.2.1
+      · simp [Pool.freeB, hk', hk]; exact ⟨hxl.1, this.2.2.2⟩
     · simp [Pool.freeB, hk', hk]; exact hi.parkedNodup
     · intro x hx
       simp [Pool.freeB, hk', hk] at hx
@@ -211,6 +257,34 @@ theorem PI_freeB (p : Pool) (L : List Nat) (nA nF b : Nat) (hi : PI p (b :: L) n
     · have := hi.statBal; simp [Pool.freeB, hk', hk] at this ⊢; omega
     · have := hi.statPeakA; simp [Pool.freeB, hk', hk] at this ⊢; omega
     · have h1 := hi.statPeakF; simp [Pool.freeB, hk', hk]; exact h1
+
+/-- the constructor of the object being built in the head block throws: the block leaves the set of
+blocks in use without being parked or released -/
+theorem PI_throw (q : Pool) (b : Nat) (L : List Nat) (nA nF : Nat) (hi : PI q (b :: L) (nA + 1) nF) :
+    PI (q.ctorThrow b) L nA nF := by
+  have hbl : b ∈ b :: L := by simp
+  refine ⟨hi.parkedNodup, (List.nodup_cons.1 hi.liveNodup).2, ?_, ?_, ?_, hi.freeNum, hi.keep, ?_, ?_, ?_, hi.statPeakF, ?_⟩
+  rotate_right
+  · intro x hx
+    simp only [Pool.ctorThrow, List.mem_cons] at hx ⊢
+    rcases hx with hx | hx
+    · subst hx
+      exact ⟨hi.fresh _ (Or.inr (Or.inl hbl)), fun hp => hi.disjoint _ hp hbl, (List.nodup_cons.1 hi.liveNodup).1,
+        fun hr => (hi.relDisj _ hr).2 hbl⟩
+    · have := hi.lostOk x hx
+      exact ⟨this.1, this.2.1, fun hm => this.2.2.1 (List.mem_cons_of_mem _ hm), this.2.2.2⟩
+  · intro x hx hm; exact hi.disjoint x hx (List.mem_cons_of_mem _ hm)
+  · intro x hx
+    rcases hx with hx | hx | hx
+    · exact hi.fresh x (Or.inl hx)
+    · exact hi.fresh x (Or.inr (Or.inl (List.mem_cons_of_mem _ hx)))
+    · exact hi.fresh x (Or.inr (Or.inr hx))
+  · intro x hx
+    have := hi.relDisj x hx
+    exact ⟨this.1, fun hm => this.2 (List.mem_cons_of_mem _ hm)⟩
+  · have := hi.balance; simp only [List.length_cons] at this; simp only [Pool.ctorThrow]; omega
+  · have := hi.statBal; simp only [List.length_cons] at this; simp only [Pool.ctorThrow]; omega
+  · have := hi.statPeakA; simp only [List.length_cons] at this; simp only [Pool.ctorThrow]; omega
 
 /-! ### the system: slots, calls in progress -/
 
@@ -239,7 +313,7 @@ theorem pinit_inv : SInv PoolSys.init := by
   have : PoolSys.init.inUse = [] := by simp [PoolSys.init, PoolSys.inUse, PoolSys.liveBlocks]
   refine ⟨?_, by simp [PoolSys.init], by simp [PoolSys.init]⟩
   rw [this]
-  refine ⟨?_, ?_, ?_, ?_, ?_, rfl, ?_, ?_, ?_, ?_, ?_⟩ <;> simp [PoolSys.init, nAlloc, nFree]
+  refine ⟨?_, ?_, ?_, ?_, ?_, rfl, ?_, ?_, ?_, ?_, ?_, ?_⟩ <;> simp [PoolSys.init, nAlloc, nFree]
 
 theorem reserved_false (s : PoolSys) (h : Nat) (hr : s.reserved h = false) :
     ∀ f, f ∈ s.stack → f.target ≠ some h := by
@@ -364,6 +438,25 @@ theorem ev_inv (s : PoolSys) (e : PEv) (hi : SInv s) :
             exact hi.resv f h' (by rw [hst]; exact List.mem_cons_of_mem _ hf) ht
           · have hu := hi.uniq; rw [hst, List.pairwise_cons] at hu; exact hu.2
         · exact ⟨hi, by simp⟩
+  | athr =>
+      simp only [PoolSys.ev]
+      split
+      · exact ⟨skipInv _, by simp⟩
+      · split
+        · rename_i h v b rest hst
+          refine ⟨⟨?_, ?_, ?_⟩, by simp⟩
+          · have hpi : PI s.pool (s.liveBlocks ++ b :: rest.map Frame.blk)
+                (List.countP Frame.isAlloc rest + 1) (List.countP (fun f => !f.isAlloc) rest) := by
+              have := hi.pi
+              simp only [PoolSys.inUse, nAlloc, nFree, hst, List.map_cons, cntA_allocF, cntF_allocF] at this
+              exact this
+            have hperm : (s.liveBlocks ++ b :: rest.map Frame.blk).Perm (b :: (s.liveBlocks ++ rest.map Frame.blk)) :=
+              List.perm_middle
+            exact PI_throw s.pool b _ _ _ (PI_perm _ _ _ _ _ hpi hperm)
+          · intro f h' hf ht
+            exact hi.resv f h' (by rw [hst]; exact List.mem_cons_of_mem _ hf) ht
+          · have hu := hi.uniq; rw [hst, List.pairwise_cons] at hu; exact hu.2
+        · exact ⟨hi, by simp⟩
 
 theorem runEvs_inv (s : PoolSys) (es : List PEv) (hi : SInv s) : SInv (s.runEvs es) := by
   induction es generalizing s with
@@ -452,31 +545,18 @@ theorem freeSlots_all_none (s : PoolSys) (hs : List Nat)
 
 theorem renew_pi (p : Pool) (k : Nat) (hi : PI p [] 0 0) : PI (p.renew k) [] 0 0 := by
   refine ⟨by simp [Pool.renew], by simp, by simp, ?_, by simp [Pool.renew], rfl, by simp [Pool.renew], ?_, by simp [Pool.renew],
-    by simp, by simp [Pool.renew]⟩
+    by simp, by simp [Pool.renew], ?_⟩
   · intro b hb
     simp [Pool.renew] at hb ⊢
     rcases hb with hb | hb
     · exact hi.fresh b (Or.inl hb)
     · exact hi.fresh b (Or.inr (Or.inr hb))
   · have := hi.balance; simpa [Pool.renew] using this
-
-/-- the constructor of the object being built in the head block throws: the block leaves the set of
-blocks in use without being parked or released -/
-theorem PI_throw (q : Pool) (b : Nat) (L : List Nat) (nA nF : Nat) (hi : PI q (b :: L) (nA + 1) nF) :
-    PI { q with thrown := q.thrown + 1 } L nA nF := by
-  refine ⟨hi.parkedNodup, (List.nodup_cons.1 hi.liveNodup).2, ?_, ?_, ?_, hi.freeNum, hi.keep, ?_, ?_, ?_, hi.statPeakF⟩
-  · intro x hx hm; exact hi.disjoint x hx (List.mem_cons_of_mem _ hm)
-  · intro x hx
-    rcases hx with hx | hx | hx
-    · exact hi.fresh x (Or.inl hx)
-    · exact hi.fresh x (Or.inr (Or.inl (List.mem_cons_of_mem _ hx)))
-    · exact hi.fresh x (Or.inr (Or.inr hx))
-  · intro x hx
-    have := hi.relDisj x hx
-    exact ⟨this.1, fun hm => this.2 (List.mem_cons_of_mem _ hm)⟩
-  · have := hi.balance; simp only [List.length_cons] at this; simp only; omega
-  · have := hi.statBal; simp only [List.length_cons] at this; simp only; omega
-  · have := hi.statPeakA; simp only [List.length_cons] at this; simp only; omega
+  · intro b hb
+    have hb' : b ∈ p.lost := by simpa [Pool.renew] using hb
+    have := hi.lostOk b hb'
+    simp [Pool.renew]
+    exact ⟨this.1, this.2.1, this.2.2.2⟩
 
 theorem pool_step_inv (s : PoolSys) (op : PoolOp) (hi : SInv s) : SInv (s.step op) := by
   cases op with
@@ -529,13 +609,18 @@ theorem pool_step_inv (s : PoolSys) (op : PoolOp) (hi : SInv s) : SInv (s.step o
           have he' : List.filterMap (fun o : Option (Nat × Nat) => o.map (·.1)) (List.replicate s.slots.length none) = [] := he
           rw [he']
           refine ⟨by simp [Pool.renew], by simp, by simp, ?_, by simp [Pool.renew], rfl, by simp [Pool.renew], ?_, by simp [Pool.renew],
-            by simp, by simp [Pool.renew]⟩
+            by simp, by simp [Pool.renew], ?_⟩
           · intro b hb
             simp [Pool.renew] at hb ⊢
             rcases hb with hb | hb
             · exact hpi.fresh b (Or.inl hb)
             · exact hpi.fresh b (Or.inr (Or.inr hb))
           · have := hpi.balance; simp [Pool.renew, PoolSys.liveBlocks] at this ⊢; omega
+          · intro b hb
+            have hb' : b ∈ s.pool.lost := by simpa [Pool.renew] using hb
+            have := hpi.lostOk b hb'
+            simp [Pool.renew]
+            exact ⟨this.1, this.2.1, this.2.2.2⟩
         · intro f h hf; simp only [hst'] at hf; cases hf
         · simp only [hst']; exact List.Pairwise.nil
 
